@@ -152,3 +152,29 @@ VX long verif_in_units(int op, unsigned rows, unsigned cols, const double* q, do
 	}
 	return -1;
 }
+// ---- C20: the library's own logic of the text import (line counting, header skipping, reshaping, per-column units); the file and stream operations are the environment
+namespace libphysica
+{
+extern unsigned int Count_Lines(std::string filepath);
+}
+VX unsigned verif_count_lines(const char* path) { return Count_Lines(std::string(path)); }
+VX unsigned long verif_import_table(const char* path, unsigned ndim, const double* dims, unsigned ignored, double* out, unsigned long cap, unsigned* shape)
+{
+	std::vector<double> d(dims, dims + ndim);
+	std::vector<std::vector<double>> t = Import_Table(std::string(path), d, ignored);
+	shape[0]		= t.size();
+	shape[1]		= t.empty() ? 0 : t[0].size();
+	unsigned long k = 0;
+	for(unsigned i = 0; i < t.size(); i++)
+		for(unsigned j = 0; j < t[i].size(); j++)
+			if(k < cap)
+				out[k++] = t[i][j];
+	return k;
+}
+VX unsigned long verif_import_list(const char* path, double dimension, unsigned ignored, double* out, unsigned long cap)
+{
+	std::vector<double> v = Import_List(std::string(path), dimension, ignored);
+	for(unsigned long k = 0; k < v.size() && k < cap; k++)
+		out[k] = v[k];
+	return v.size();
+}
